@@ -153,6 +153,10 @@ namespace verif
                 throw SchedAbort();
         }
 
+        // the scheduler's own mutex must never be made cooperative (used by a harness that interposes
+        // pthread_mutex_lock)
+        bool is_own_mutex(const void* native) { return native == static_cast<const void*>(m_.native_handle()); }
+
     private:
         enum St { Ready,
                   Blocked,
